@@ -54,16 +54,19 @@ CHAN_RO_METHODS = {
 }
 # calls that take `&mut EnforcementState` but only read it (checked by hand: validator.rs)
 CHAN_RO_MUTREF = ["get_current_holder_commitment_info("]
+# the node state is reached through a guard variable (`state`, `node_state`) or directly (`self.get_state().x`)
+ST = r"(?:\b(?:node_)?state|get_state\(\))"
 NODE_MUT = [
-    r"\bstate\.(allowlist|invoices)\.(insert|remove|clear|retain)\(",
-    r"\bstate\.velocity_control\.(insert|update_spec)\(",
-    r"\b(node_)?state\.dbid_high_water_mark\s*=[^=]",
-    r"\bstate\.prune_\w+\(",
+    ST + r"\.(allowlist|invoices)\.(insert|remove|clear|retain|extend|append)\(",
+    ST + r"\.(allowlist|invoices)\s*=[^=]",
+    ST + r"\.velocity_control\.(insert|update_spec|clear)\(",
+    ST + r"\.dbid_high_water_mark\s*=[^=]",
+    ST + r"\.prune_\w+\(",
 ]
-ISSUED_MUT = [r"\bstate\.issued_invoices\.(insert|remove|clear|retain)\("]
-FEE_MUT = [r"\bstate\.fee_velocity_control\.(insert|update_spec)\("]
+ISSUED_MUT = [ST + r"\.issued_invoices\.(insert|remove|clear|retain|extend|append)\("]
+FEE_MUT = [ST + r"\.fee_velocity_control\.(insert|update_spec|clear)\("]
 LEDGER_MUT = [
-    r"\bstate\.apply_payments\(", r"\bstate\.payments\.(insert|remove|clear|entry|retain)\(", r"\bstate\.htlc_fulfilled\(",
+    ST + r"\.apply_payments\(", ST + r"\.payments\.(insert|remove|clear|entry|retain)\(", ST + r"\.htlc_fulfilled\(",
 ]
 NODE_RO_METHODS = {
     "validate_payments", "summary", "len", "get", "contains_key", "iter", "clone", "velocity", "is_empty", "values",
